@@ -471,3 +471,64 @@ func TestVerifC12ConcurrentReset(t *testing.T) {
 		})
 	})
 }
+
+// TestVerifC12ConcurrentBuild: distributions of DIFFERENT objects are built at the same time (a bridge builds one
+// per accepted connection, a client one per seed packet): each is still the pure function of its own seed.
+func TestVerifC12ConcurrentBuild(t *testing.T) {
+	c := ev.For("C12")
+	c.Rule("concurrent-build: 64 (seed, bounds, bias) triples are built sequentially first; then G goroutines (quick 8, thorough 16) each build and re-seed their own objects over those triples thousands of times at once; oracle: every table built under concurrency (values, weights, alias, prob) equals the sequentially built one bit for bit; every round counts as non-trivial; fingerprint = shard, goroutine")
+	type spec struct {
+		seed     *drbg.Seed
+		min, max int
+		biased   bool
+		want     string
+	}
+	bounds := [][2]int{{0, 1448}, {0, 100}, {21, 1448}, {0, 5}}
+	specs := make([]spec, 64)
+	for i := range specs {
+		sd, _ := drbg.SeedFromBytes(detrand.Bytes(0xc12b0000+uint64(i), 24))
+		b := bounds[i%len(bounds)]
+		specs[i] = spec{seed: sd, min: b[0], max: b[1], biased: i%3 == 0}
+		specs[i].want = vf12Tables(New(sd, b[0], b[1], specs[i].biased))
+	}
+	g, per := 8, 1500
+	if ev.Thorough() {
+		g, per = 16, 12000
+	}
+	var wg sync.WaitGroup
+	errs := make(chan string, g)
+	for w := 0; w < g; w++ {
+		wg.Add(1)
+		go func(w int) {
+			defer wg.Done()
+			var reuse *WeightedDist
+			for k := 0; k < per; k++ {
+				sp := specs[(w*7+k*13)%len(specs)]
+				d := New(sp.seed, sp.min, sp.max, sp.biased)
+				if got := vf12Tables(d); got != sp.want {
+					errs <- fmt.Sprintf("VIOL[c12-not-deterministic]: New(seed #%d, %d, %d, %v) called while %d other goroutines build distributions of their own gives tables that differ from the ones the same call gives alone", (w*7+k*13)%len(specs), sp.min, sp.max, sp.biased, g-1)
+					return
+				}
+				// Reset on an object of one's own with the same bounds
+				if reuse != nil && reuse.minValue == sp.min && reuse.maxValue == sp.max && reuse.biased == sp.biased {
+					reuse.Reset(sp.seed)
+					if got := vf12Tables(reuse); got != sp.want {
+						errs <- fmt.Sprintf("VIOL[c12-reset-differs]: Reset(seed #%d) on a goroutine's own object while %d other goroutines build distributions gives tables that differ from New(seed) alone", (w*7+k*13)%len(specs), g-1)
+						return
+					}
+				} else {
+					reuse = d
+				}
+			}
+		}(w)
+	}
+	wg.Wait()
+	close(errs)
+	for m := range errs {
+		t.Fatalf("%s", m)
+	}
+	shard := os.Getenv("VERIF_SHARD")
+	for w := 0; w < g; w++ {
+		c.Case(ev.Hash("concbuild", shard, w), true, []string{"concurrent-build"}, nil)
+	}
+}
